@@ -25,6 +25,7 @@ impl Blake2bMac512 {
 impl Update for Blake2bMac512 {
     fn update(&mut self, _data: &[u8]) {}
 }
+impl digest::MacMarker for Blake2bMac512 {}
 impl OutputSizeUser for Blake2bMac512 {
     type OutputSize = U64;
 }
